@@ -33,7 +33,7 @@ vt_proof! { unwind = 2; fn c41_default_converter_all_dates() {
     assert!(days_from_ymd(y, m, d) as i64 == ref_days(y as i64, m as i64, d as i64), "role=default_converter_matches_gregorian");
 }}
 
-// @vt prop=C41 tier=quick bound="date-function converter date_to_days (offset 719163): every valid date in years 1..=9999" outside="years outside 1..=9999" timeout=900
+// @vt prop=C41,C20 tier=quick bound="date-function converter date_to_days (offset 719163): every valid date in years 1..=9999" outside="years outside 1..=9999" timeout=900
 vt_proof! { unwind = 2; fn c41_function_converter_all_dates() {
     let (y, m, d) = any_date(1, 9999);
     kani::cover!(y == 2000 && m == 2 && d == 29, "w:leap_day_2000");
@@ -55,7 +55,7 @@ vt_proof! { unwind = 8035; fn c41_literal_converter_all_dates() {
     assert!(lit::date_to_days_since_epoch(y, m, d) as i64 == ref_days(y as i64, m as i64, d as i64), "role=literal_converter_matches_gregorian");
 }}
 
-// @vt prop=C41 tier=quick bound="days_to_date(date_to_days(y,m,d)) == (y,m,d): every valid date in years 1600..=2400" outside="years outside 1600..=2400 in the quick tier (thorough: 1..=9999)" timeout=1200
+// @vt prop=C41,C20 tier=quick bound="days_to_date(date_to_days(y,m,d)) == (y,m,d): every valid date in years 1600..=2400" outside="years outside 1600..=2400 in the quick tier (thorough: 1..=9999)" timeout=1200
 vt_proof! { unwind = 2; fn c41_inverse_1600_2400() {
     let (y, m, d) = any_date(1600, 2400);
     let n = dt::date_to_days(y as i64, m, d);
@@ -83,7 +83,7 @@ vt_proof! { unwind = 2; fn c41_validity_predicates() {
     kani::cover!(m == 13, "w:invalid_month");
 }}
 
-// @vt prop=C20 tier=quick bound="day_of_year and day_of_week: every valid date in years 1583..=2400 (weekday reference: day number mod 7, 1970-01-01 = Thursday)" outside="years outside 1583..=2400 in the quick tier" timeout=1200
+// @vt prop=C20,C41 tier=quick bound="day_of_year and day_of_week: every valid date in years 1583..=2400 (weekday reference: day number mod 7, 1970-01-01 = Thursday)" outside="years outside 1583..=2400 in the quick tier" timeout=1200
 vt_proof! { unwind = 2; fn c20_day_of_week_and_year() {
     let (y, m, d) = any_date(1583, 2400);
     let n = ref_days(y as i64, m as i64, d as i64);
